@@ -23,10 +23,8 @@ ASSUMPTIONS = ["all text is printable ASCII",
                "non-empty blank-free locus name, a numeric or empty length, a molecule type from poly's own list or none; metadata is single-spaced; "
                "extra keyword names are not the writer's own keywords and fit the keyword field; feature keys fit columns 6-20; reference numbers "
                "are positions; a cached location text denotes the record's location; qualifier values do not begin or end with a quotation mark"]
-PARTIAL = ["parse_build (parse (build x) ≈ ok x over the PARSER MODEL): not stated in Lean until Model/Genbank.lean (property C01) is finished; "
-           "rests on correspondence: the real Parse(Build(x)) ≈ x is judged on every case",
-           "build_strict_layout: proved section by section (LOCUS line, keyword blocks incl. wrapping, feature table, ORIGIN); see Props/C03.lean for "
-           "which compositions are closed"]
+PARTIAL = ["parse_build (parse (build x) ≈ ok x over the PARSER MODEL of property C01): stated and proved only as far as Props/C03.lean says; "
+           "until then it rests on correspondence: the real Parse(Build(x)) ≈ x is judged on every case"]
 
 MOLTYPES = ["DNA", "genomic DNA", "genomic RNA", "mRNA", "tRNA", "rRNA", "other RNA", "other DNA",
             "transcribed RNA", "viral cRNA", "unassigned DNA", "unassigned RNA"]
@@ -368,10 +366,11 @@ def cases(seed, tier):
 TECHNIQUE = ("Lean 4 proof over a transcription of genbank.Build (incl. go-wordwrap) with the map iteration order as a universally quantified "
              "parameter, against an independent strict column reader; differential correspondence on Build output, repeated builds, "
              "Parse(Build(x)) and Write/Read")
-LEVEL_TEXT = ("Determinism (all map iteration orders), the cached-or-structural location clause and the wrap/unwrap inversion for single-spaced "
-              "text of any length are kernel-checked theorems about the model; the layout clause (strictRead (build x) = some (abs x)) is proved "
-              "as far as Props/C03.lean states; the write-then-read clause over the real parser is judged on every case (real Parse(real "
-              "Build(x)) ≈ x, Write/Read through a file) because the parser model belongs to property C01.")
+LEVEL_TEXT = ("Determinism (all map iteration orders), the cached-or-structural location clause, the wrap/unwrap inversion for single-spaced "
+              "text of any length and the layout clause (strictRead (build x o) = some (abs x) for every record of the decidable layout domain: "
+              "any number of blocks, references, features, qualifiers, any text and sequence length) are kernel-checked theorems about the model; "
+              "the write-then-read clause over the real parser is judged on every case (real Parse(real Build(x)) ≈ x, Write/Read through a "
+              "file) because the parser model belongs to property C01.")
 LEVEL_NOTE = ("Trusted: Lean kernel; harness + pm_C03 judge; the hand transcription of go-wordwrap and of Build (tied by correspondence on every "
               "case, byte for byte); the strict reader as the meaning of 'independent reader'; ASCII.")
 
